@@ -87,6 +87,7 @@ func (ctx *Context) Parse(value string) error {
 	ctx.Error = nil
 	ctx.NumOpCount = 0
 	ctx.detailCache = ""
+	ctx.DetailSpans = nil // 旧的span指向上一次输入的偏移，不能与新的parser混用
 
 	// 开始解析，编译字节码
 	if ctx.Config.ParseExprLimit != 0 {
